@@ -305,6 +305,15 @@ def judge_c06(ctx, idx, op, impl, mi, ms, reason):
 
 def judge_c07(ctx, idx, op, impl, mi, ms, reason):
     f = same(ctx, idx, op, impl, mi, "Stream.Codec.decode <-> Codec::decode on a byte-counting scripted stream")
+    if op[0] == "sdecmany":
+        ctx.count("sdecmany")
+        m = re.match(r"ok=(\d+) consumed=(\d+) hostile=(\S+)$", impl)
+        want = "ok=%s .. hostile=err@4,err@4,err@4,err@4" % op[1]
+        if not m:
+            f.append(Finding("property", idx, "reading %s well-formed frames from one stream and then hostile announcements ended in `%s`" % (op[1], impl[:60]), expected=want, observed=impl[:200], name="C07_hostile"))
+        elif m.group(1) != op[1] or m.group(3) != "err@4,err@4,err@4,err@4":
+            f.append(Finding("property", idx, "after %s well-formed frames (%s octets) through this process: a well-formed frame was refused, or a hostile announcement was not refused after exactly its 4-octet prefix" % (m.group(1), m.group(2)), expected=want, observed=impl[:200], name="C07_hostile"))
+        return f
     if op[0] == "sdec":
         lab = label_kv(ctx.case_label)
         L = int(lab.get("L", "-1"))
@@ -361,6 +370,13 @@ def judge_c08(ctx, idx, op, impl, mi, ms, reason):
         if not m or int(m.group(1)) != int(kvs.get("n", "0")) or m.group(2) not in ("eof", "reset-after-answers"):
             return [Finding("property", idx, "through the real listener: the answers produced before the handler failed did not all arrive, complete and in order, before the connection ended", expected="answers=%s end=eof" % kvs.get("n"), observed=impl[:200], name="C08_handler_fails")]
         return []
+    if op[0] == "servemany":
+        ctx.count("servemany")
+        f = same(ctx, idx, op, impl, mi, "Server.serve <-> DiameterServer::process_incoming_message (one connection, very many requests)")
+        m = re.match(r"calls=(\d+) consumed=(\d+) written=(\d+) end=(\S+)$", impl)
+        if not m or m.group(1) != op[1] or m.group(4) != "done" or impl != mi:
+            f.append(Finding("property", idx, "one connection carrying %s well-formed requests: not every request was handled and answered (%s)" % (op[1], impl[:80]), expected=mi, observed=impl[:200], name="C08_all_good"))
+        return f
     if op[0] == "lsn":
         # the same loop behind the real listeners (plain TCP / TLS): every request answered, in order, to its connection
         f = judge_c10(ctx, idx, op, impl, mi, ms, reason)
@@ -942,8 +958,8 @@ PROPS = {
     "C04": dict(family="c04", extra=shipped_defs, judge=judge_c04, probes=("decq",), expect_keys=['reason_e_addr', 'reason_e_app', 'reason_e_cmd', 'reason_e_eof', 'reason_e_mismatch', 'reason_e_short', 'reason_e_unknownAvp', 'reason_e_utf8', 'reason_e_deep', 'reason_ok', 'depth_32'], title="The decoder is total"),
     "C05": dict(family="c05", judge=judge_c05, probes=("ench", "encw", "senc"), expect_keys=["senc_ok", "senc_err", "ench_ok", "ench_err_unrepresentable", "encw_ok", "encw_err", "encw_err_unrepresentable", "encw_fault_inside_frame", "encw_mode_1_2_zero", "encw_mode_0_0_err"], title="Encoding never reports success for a frame it did not fully produce"),
     "C06": dict(family="c06", judge=judge_c06, probes=("sdec", "senc"), title="Stream framing is independent of how bytes are segmented"),
-    "C07": dict(family="c07", judge=judge_c07, probes=("sdec",), expect_keys=["L_gt1MiB_err", "L_inrange_err", "L_inrange_ok", "L_lt20_err"], title="Hostile frame lengths on a stream are refused cheaply and safely"),
-    "C08": dict(family="c08", judge=judge_c08, probes=("serve", "lsn", "lsnpipe"), expect_keys=["serve_good", "serve_herr", "serve_unencodable", "serve_malformed_kind0", "serve_malformed_kind1", "serve_malformed_kind2", "serve_malformed_kind3"], title="Server answers each request exactly once, in order, unmodified"),
+    "C07": dict(family="c07", judge=judge_c07, probes=("sdec", "sdecmany"), expect_keys=["L_gt1MiB_err", "L_inrange_err", "L_inrange_ok", "L_lt20_err"], title="Hostile frame lengths on a stream are refused cheaply and safely"),
+    "C08": dict(family="c08", judge=judge_c08, probes=("serve", "lsn", "lsnpipe", "servemany"), expect_keys=["serve_good", "serve_herr", "serve_unencodable", "serve_malformed_kind0", "serve_malformed_kind1", "serve_malformed_kind2", "serve_malformed_kind3"], title="Server answers each request exactly once, in order, unmodified"),
     "C09": dict(family="c09", judge=judge_c08, probes=("serve",), expect_keys=["serve_readcut", "serve_writecut"], title="Server survives connection loss at any byte offset"),
     "C10": dict(family="c10", judge=judge_c10, probes=("lsn",), title="One misbehaving connection cannot disturb the others"),
     "C13": dict(family="c13", judge=judge_c13, probes=("tls", "tlsq", "tlsrude"), title="TLS settings are honoured exactly"),
